@@ -237,6 +237,14 @@ fn one_case(ctx: &Ctx, dir: &std::path::Path, case: u64, seed: u64, rep: &mut Re
     if matches!(prop, "C18" | "C17" | "C04") && rng.chance(1, 2) {
         world.ropts.via_vars = true;
     }
+    // the same graph under other spellings: noisy paths (leading ./, x/../, doubled and mixed separators)
+    // and paths written through block variables that shadow file-level ones
+    if rng.chance(1, 4) {
+        world.ropts.spell_seed = rng.next() | 1;
+    }
+    if rng.chance(1, 4) {
+        world.ropts.shadow_seed = rng.next() | 1;
+    }
     world.init_sources(&mut rng);
     world.write_manifest();
 
